@@ -1,7 +1,7 @@
 (* C05 — the token tree obeys the documented grammar.  PARTIAL: attribute bounds that follow from the
    regenerated patterns.  The inductive proof over the parser model is not claimed (DESIGN.md). *)
 From Coq Require Import ZArith List Bool Lia.
-From Verif Require Import PyStr Rx RxSpec RxAnalysis RxGroups UnicodeGen RxGen Inline Block BlockProofs BlockTyping BlockLevels BlockDepth BlockGen Doc DocProofs Entry C01.
+From Verif Require Import PyStr Rx RxSpec RxAnalysis RxGroups UnicodeGen RxGen Inline Block BlockProofs BlockTyping BlockLevels BlockDepth BlockGen Table TableProofs TableGen Doc DocProofs Entry C01.
 Import ListNotations.
 Local Open Scope nat_scope.
 
@@ -97,6 +97,27 @@ Example C05_nesting_not_vacuous :
   fits 2 (BQuote [BList [BListItem [BQuote []]] true 45%Z 1 false None]) = false /\ block_max_nested = 6.
 Proof. repeat split. Qed.
 
+(* tables (plugins/table.py on the regenerated patterns; tied by skeletons with constants - TableGen - and the
+   function-level correspondence run of this check): for every text, when either table rule accepts, every body row has
+   as many cells as the header, each cell carries its column's alignment, header cells are marked head and body cells
+   are not *)
+Theorem C05_tie_table_skeletons : table_skeletons_ok = true.
+Proof. reflexivity. Qed.
+
+Theorem C05_table_rows_match_the_header : forall np s thead rows pos,
+  table_at table_cfg np s = Some (Some (thead, rows, pos)) ->
+  Forall (fun c => c_head c = true) thead /\
+  Forall (fun row => length row = length thead /\ map c_align row = map c_align thead /\ Forall (fun c => c_head c = false) row) rows.
+Proof. intros np s thead rows pos H. exact (table_at_ok table_cfg np s thead rows pos H). Qed.
+
+(* |a|b| / |-|:-:| / |1|2| : one body row, alignments none and center *)
+Example C05_table_not_vacuous :
+  match table_at table_cfg false [124; 97; 124; 98; 124; 10; 124; 45; 124; 58; 45; 58; 124; 10; 124; 49; 124; 50; 124; 10]%Z with
+  | Some (Some (h, [r], _)) => map c_align h = [ANoAlign; ACenter] /\ map c_text r = [[49%Z]; [50%Z]]
+  | _ => False
+  end.
+Proof. vm_compute. split; reflexivity. Qed.
+
 Example C05_levels_not_vacuous : lvl_ok (BQuote [BHeading [] 7 false]) = false /\ lvl_ok (BList [BListItem [BHeading [] 6 false]] true 45%Z 0 false None) = true.
 Proof. split; reflexivity. Qed.
 
@@ -111,4 +132,5 @@ Print Assumptions C05_block_tree_is_well_typed.
 Print Assumptions C05_heading_levels_are_1_to_6.
 Print Assumptions C05_document_ast_is_well_typed.
 Print Assumptions C05_nesting_never_exceeds_the_maximum.
+Print Assumptions C05_table_rows_match_the_header.
 Print Assumptions C05_document_nesting_never_exceeds_the_maximum.
